@@ -31,8 +31,39 @@ def oracle_faulted(req, out):
             return "first error on line %d, but the text stops conforming on line %d (%s)" % (first, FAULT[req][0], FAULT[req][1])
     return None
 
+def several_faults(rng, n):
+    """texts with SEVERAL faults, in one record and across records, built so that a later line's fault is found by an earlier
+       stage of the parser than an earlier line's (errors must still come out in ascending line order): a second open range
+       whose summary has a malformed continuation line, a bad headline above bad entries, a wrong indentation below a bad entry"""
+    out = []
+    blanks = ["\u00a0", "\u3000", " \u00a0", "\u2003"]
+    for _ in range(n):
+        ind = rng.choice(["    ", "  ", "\t", "   "])
+        eol = rng.choice(["\n", "\n", "\r\n"])
+        k = rng.randrange(6)
+        L = ["2020-01-01"]
+        if k == 0:
+            L += [ind + "8:00-?", ind + "9:00-? Foo", ind + ind + rng.choice(blanks)]
+        elif k == 1:
+            L += [ind + "8:00 - ?", ind + "1h", ind + "10:00 - ?? again", ind + ind + "more", ind + ind + rng.choice(blanks), ind + "x"]
+        elif k == 2:
+            L = ["2020-01-01 oops", ind + "8:00 - 7:00", ind + "1h60m", ind + ind + rng.choice(blanks)]
+        elif k == 3:
+            L += [ind + "25:00 - 26:00", (" " if ind != "\t" else "\t ") + ind + "1h", ind + "8:00 - ? a", ind + "9:00 - ? b"]
+        elif k == 4:
+            L += ["summary", rng.choice(blanks) + "bad summary", ind + "8:00-?", ind + "9:00-?", ind + ind + rng.choice(blanks)]
+        else:
+            L += [ind + "1h ok", ind + ind + rng.choice(blanks), ind + "8:00 -", ind + "<8:00> - 9:00"]
+        if rng.random() < 0.5:
+            L = ["2019-12-31", ind + "2h", ""] + L
+        if rng.random() < 0.5:
+            L += ["", "2020-13-01", ind + "1h"]
+        out.append((eol.join(L) + (eol if rng.random() < 0.8 else "")).encode())
+    return out
+
 def gen_malformed(tier, rng):
-    return [req_parse(b) for b in byte_stream(tier, rng, 3000 if tier == "quick" else 200000, 1000 if tier == "quick" else 100000, 3) if len(b) < 20000]
+    out = [req_parse(b) for b in several_faults(rng, 600 if tier == "quick" else 40000)]
+    return out + [req_parse(b) for b in byte_stream(tier, rng, 3000 if tier == "quick" else 200000, 1000 if tier == "quick" else 100000, 3) if len(b) < 20000]
 
 def gen_render(tier, rng):
     n = 800 if tier == "quick" else 30000
